@@ -310,7 +310,7 @@ def prove_registration(src_root, ex: Explorer):
 
 
 def prove_execute(src_root, ex: Explorer):
-    outcomes = ['no-session', 'send-fails', 'no-response-wanted', 'no-response-defined', 'answered', 'timeout']
+    outcomes = ['no-session', 'send-fails', 'send-cancelled', 'no-response-wanted', 'no-response-defined', 'answered', 'timeout']
 
     def path(ctx: Ctx):
         it = mk(src_root, ctx)
@@ -327,6 +327,8 @@ def prove_execute(src_root, ex: Explorer):
             sent.append(a)
             if oc == 'send-fails':
                 it2.throw('ConnectionResetError', 'send failed')
+            if oc == 'send-cancelled':              # the caller is cancelled while command.send() is suspended
+                it2.throw('CancelledError')
 
         def hook_await(it2, task):
             if oc == 'answered':
@@ -353,6 +355,10 @@ def prove_execute(src_root, ex: Explorer):
         elif oc == 'send-fails':
             ctx.prove('C12.execute.send-fails', raised == 'ConnectionResetError' and fut.done is True and fut.cancelled is True,
                       'on a failed send the registered future must be cancelled (so it is removed) and the error re-raised')
+        elif oc == 'send-cancelled':
+            ctx.prove('C12.execute.send-cancelled', raised == 'CancelledError' and fut.done is True and fut.cancelled is True,
+                      f'execute() cancelled inside command.send() (raised {raised}): the expectation registered before the send must be cancelled, '
+                      'otherwise it stays in the registry for ever (a cancelled request leaves residue)')
         elif oc in ('no-response-wanted', 'no-response-defined'):
             ctx.prove(f'C12.execute.{oc}', raised is None and res is None and not lst and len(sent) == 1 and not fut.awaited)
         elif oc == 'answered':
